@@ -10,6 +10,7 @@ import (
 	"sort"
 	"strconv"
 	"strings"
+	"sync"
 	"time"
 )
 
@@ -263,6 +264,11 @@ func (r *verifReport) writeEvidence(nviol int, knownSeen []string) {
 	for k, v := range r.Extra {
 		cov[k] = v
 	}
+	verifStatMu.Lock()
+	if len(verifStats_) > 0 {
+		cov["counters"] = verifStats_
+	}
+	verifStatMu.Unlock()
 	if len(r.Samples) == 0 {
 		cov["samples"] = []interface{}{"(no samples recorded)"}
 	}
@@ -398,4 +404,14 @@ func VerifMain(args []string) int {
 		return 0
 	}
 	return 2
+}
+
+// run-wide statistics counters (evidence only; never influence verdicts)
+var verifStatMu sync.Mutex
+var verifStats_ = map[string]int64{}
+
+func verifCount(name string, n int64) {
+	verifStatMu.Lock()
+	verifStats_[name] += n
+	verifStatMu.Unlock()
 }
